@@ -250,13 +250,29 @@ impl Engine for C13 {
         };
         let mut prev_today: Option<(Date, bool)> = None;
         let mut fs_fault_seen_before = false;
+        let mut after_kill_dates: Vec<Date> = vec![];
         // year -> (today, published_today) of the latest successful download of that year by a run
         // whose cache write was not disturbed by an injected file-system error
         let mut downloaded_on: BTreeMap<i32, (Date, bool)> = BTreeMap::new();
         for (ri, run) in sc.runs.iter().enumerate() {
             let today = pd(&run.today);
             let pt = run.published_today;
-            let lookups: Vec<Date> = run.lookups.iter().map(|s| pd(s)).collect();
+            let mut lookups: Vec<Date> = run.lookups.iter().map(|s| pd(s)).collect();
+            let mut n_pre = 0usize;
+            if !after_kill_dates.is_empty() {
+                // the run after a kill first asks for the last dates found in whatever rates-* files
+                // survived (an adversarial choice made from the disk, as in C14) - not beyond its own today
+                let mut pre: Vec<Date> = vec![];
+                for d in after_kill_dates.drain(..) {
+                    if d <= today && !pre.contains(&d) && pre.len() < 4 {
+                        pre.push(d);
+                    }
+                }
+                n_pre = pre.len();
+                pre.extend(lookups.iter().copied());
+                lookups = pre;
+                st.bump("probe.run_after_a_kill_asks_for_the_last_surviving_dates");
+            }
             let persisted = persisted_dates(&sc.cache, &mem);
             if let Some((pday, ppt)) = prev_today {
                 st.add("sim.days", (today - pday).whole_days().max(0) as u64);
@@ -274,7 +290,8 @@ impl Engine for C13 {
             if run.app_path {
                 st.bump("probe.app_path_run");
             }
-            let kind_of = |i: usize| -> u8 { run.row_kinds.get(i).copied().unwrap_or(0) };
+            let shown: Vec<String> = lookups.iter().map(|d| d.to_string()).collect();
+            let kind_of = |i: usize| -> u8 { if i < n_pre { 0 } else { run.row_kinds.get(i - n_pre).copied().unwrap_or(0) } };
             let app_rows: Option<Vec<AppRow>> = if run.app_path {
                 Some(
                     lookups
@@ -378,6 +395,7 @@ impl Engine for C13 {
                     _ => 0,
                 };
                 let survived = crate::simfs::Disk::crash_state(&before, j, k, cut);
+                after_kill_dates = crate::c14::tail_dates(&survived);
                 crate::interpose::with_world(|w| w.fs.disk = survived);
                 killed = true;
                 st.bump("fault.run_killed_mid_history");
@@ -527,7 +545,7 @@ impl Engine for C13 {
                         st.bump("probe.error_tolerated_during_net_fault");
                         continue;
                     }
-                    push(Violation { kind: "answer_differs".into(), signature: classify(lo.date), detail: format!("run {} (today {}, published_today {}, force {}, {:?} cache) look-up #{} of {}: with cache {}, without cache {}\n  look-ups of this run: {:?}\n  cached year {} held dates up to {:?} at the start of the run", ri, today, pt, run.force, sc.cache, li, lo.date, show_answer(&lo.result), show_answer(expect), run.lookups, y, fr.map(|d| d.to_string())) }, &mut violations);
+                    push(Violation { kind: "answer_differs".into(), signature: classify(lo.date), detail: format!("run {} (today {}, published_today {}, force {}, {:?} cache) look-up #{} of {}: with cache {}, without cache {}\n  look-ups of this run: {:?}\n  cached year {} held dates up to {:?} at the start of the run", ri, today, pt, run.force, sc.cache, li, lo.date, show_answer(&lo.result), show_answer(expect), shown, y, fr.map(|d| d.to_string())) }, &mut violations);
                 }
             }
 
@@ -555,7 +573,7 @@ impl Engine for C13 {
                 for rq in &obs.requests {
                     if rq.url_ok && !needed_by_history.contains(&rq.year) && downloaded_on.contains_key(&rq.year) {
                         let (t, _) = downloaded_on[&rq.year];
-                        push(Violation { kind: "unneeded_download".into(), signature: "download although an earlier run's download of that year already covered every requested date".into(), detail: format!("run {} (today {}, not forced, {:?} cache): request for {} although an earlier run downloaded that year successfully on {} and every date the look-ups {:?} need in it lies before that day\n  cached year {} held dates up to {:?} at the start of this run", ri, today, sc.cache, rq.year, t, run.lookups, rq.year, persisted.get(&rq.year).and_then(|s| s.iter().next_back().map(|d| d.to_string()))) }, &mut violations);
+                        push(Violation { kind: "unneeded_download".into(), signature: "download although an earlier run's download of that year already covered every requested date".into(), detail: format!("run {} (today {}, not forced, {:?} cache): request for {} although an earlier run downloaded that year successfully on {} and every date the look-ups {:?} need in it lies before that day\n  cached year {} held dates up to {:?} at the start of this run", ri, today, sc.cache, rq.year, t, shown, rq.year, persisted.get(&rq.year).and_then(|s| s.iter().next_back().map(|d| d.to_string()))) }, &mut violations);
                     }
                 }
             }
@@ -577,12 +595,12 @@ impl Engine for C13 {
                 }
                 let read_fault = obs.proc.fs_faults_fired.contains_key("open_read_error") || obs.proc.fs_faults_fired.contains_key("read_error");
                 if !run.force && rq.url_ok && !needed_years.contains(&rq.year) && !read_fault {
-                    push(Violation { kind: "unneeded_download".into(), signature: "download although the cached year covers every requested date".into(), detail: format!("run {} (today {}, not forced): request for {} although every date the look-ups {:?} need in that year was in the cache at the start of the run", ri, today, rq.year, run.lookups) }, &mut violations);
+                    push(Violation { kind: "unneeded_download".into(), signature: "download although the cached year covers every requested date".into(), detail: format!("run {} (today {}, not forced): request for {} although every date the look-ups {:?} need in that year was in the cache at the start of the run", ri, today, rq.year, shown) }, &mut violations);
                 }
             }
             for (y, n) in &ok_by_year {
                 if *n > 1 {
-                    push(Violation { kind: "redundant_download".into(), signature: "year downloaded more than once in one run".into(), detail: format!("run {} (today {}, force {}): year {} downloaded successfully {} times; look-ups {:?}", ri, today, run.force, y, n, run.lookups) }, &mut violations);
+                    push(Violation { kind: "redundant_download".into(), signature: "year downloaded more than once in one run".into(), detail: format!("run {} (today {}, force {}): year {} downloaded successfully {} times; look-ups {:?}", ri, today, run.force, y, n, shown) }, &mut violations);
                 }
             }
             if obs.requests.is_empty() && !lookups.is_empty() {
